@@ -391,8 +391,8 @@ def execStmt (ctx : Ctx) (fuel : Nat) (env : Env) (st : State) (s : Stmt) : Env 
      | .ok cv =>
        (match cv.toInt? with
         | some n =>
-          if n < 0 then (env, st, .undef "negative repeat count") else
-          -- a hidden counter that is decremented before every iteration
+          -- a hidden counter that is decremented before every iteration; the body runs while it is positive, so a count of
+          -- zero or below means no repetition at all
           let (st, loc) := st.alloc (.int n)
           let cond := fun (_ : Env) (st : State) =>
             match st.store[loc]? with
